@@ -203,6 +203,9 @@ type c17UDPCase struct {
 	Addr    string `json:"req_addr"`
 	Note    string `json:"note,omitempty"`
 	Tail    []byte `json:"tail_in_capacity,omitempty"` // bytes that sit behind the datagram in the same buffer (cap > len)
+	// Either: the datagram holds every byte of the ClientHello but some of them more than once; the property
+	// allows both leaving the destination and rewriting it to ExpHost (kind "frames" only)
+	Either bool `json:"either,omitempty"`
 }
 
 type c17UDPResult struct {
@@ -218,6 +221,9 @@ func c17RunUDP(c *c17UDPCase) (res c17UDPResult) {
 	if val != nil {
 		res.clauseID = "panic"
 		res.detail = fmt.Sprintf("panic: %v at %s", val, evidence.PanicSite(stack))
+	}
+	if c.Kind == "frames" && res.clauseID != "" {
+		res.detail += " (" + c.Note + ")" // which CRYPTO frames the Initial carried
 	}
 	return res
 }
@@ -295,6 +301,9 @@ func c17RunUDPInner(c *c17UDPCase) (res c17UDPResult) {
 	if c.ExpHost != "" {
 		want = net.JoinHostPort(c.ExpHost, origPort)
 	}
+	if c.Either && addr == c.Addr {
+		return res
+	}
 	if addr != want {
 		if want == c.Addr {
 			return fail("rewritten-without-evidence", "destination %q -> %q for a datagram that is not a complete, authentic client Initial carrying a server name", c.Addr, addr)
@@ -302,6 +311,80 @@ func c17RunUDPInner(c *c17UDPCase) (res c17UDPResult) {
 		return fail("wrong-destination", "destination %q -> %q, expected %q", c.Addr, addr, want)
 	}
 	return res
+}
+
+// ---------------------------------------------------------------------------------------------
+// CRYPTO frame layouts
+//
+// Added after the independently seeded change C17-7 (assembleCryptoFrames accepted the frames of an Initial when
+// their lengths add up to the highest end offset, so a hole in the ClientHello went unnoticed when another range
+// was carried twice, and the destination was rewritten from the zero-filled message). The dimension: HOW the
+// ClientHello is spread over the CRYPTO frames of the one Initial packet - every sequence (order matters, ranges
+// may repeat, overlap, leave holes, stop short) of up to N frames whose ranges [a,b) have both ends in a small set
+// of cut points. The cut points are a uniform grid (so that repeated and missing ranges of equal length occur)
+// plus the boundaries of the server name. Every frame carries the true ClientHello bytes of its range.
+
+// c17FrameCuts: multiples of grid below n, the extra structural offsets, and n.
+func c17FrameCuts(n, grid int, extra ...int) []int {
+	in := map[int]bool{n: true}
+	for x := 0; x < n; x += grid {
+		in[x] = true
+	}
+	for _, x := range extra {
+		if x > 0 && x < n {
+			in[x] = true
+		}
+	}
+	var out []int
+	for x := 0; x <= n; x++ {
+		if in[x] {
+			out = append(out, x)
+		}
+	}
+	return out
+}
+
+// c17FrameLayouts visits every sequence of 1..maxFrames ranges [a,b), a<b both in cuts, fewest frames first.
+func c17FrameLayouts(cuts []int, maxFrames int, visit func(fr [][2]int) bool) {
+	var ranges [][2]int
+	for i, a := range cuts {
+		for _, b := range cuts[i+1:] {
+			ranges = append(ranges, [2]int{a, b})
+		}
+	}
+	var rec func(cur [][2]int, left int) bool
+	rec = func(cur [][2]int, left int) bool {
+		if left == 0 {
+			return visit(cur)
+		}
+		for _, r := range ranges {
+			if !rec(append(cur, r), left-1) {
+				return false
+			}
+		}
+		return true
+	}
+	for n := 1; n <= maxFrames; n++ {
+		if !rec(make([][2]int, 0, n), n) {
+			return
+		}
+	}
+}
+
+// c17FrameCoverage is the reference: which bytes of the n-byte message the frames carry. complete = every byte
+// is carried at least once; repeats = some byte is carried more than once. firstHole = first missing offset.
+func c17FrameCoverage(n int, fr [][2]int) (complete, repeats bool, firstHole int) {
+	seen := make([]byte, n)
+	for _, r := range fr {
+		for x := r[0]; x < r[1]; x++ {
+			if seen[x] != 0 {
+				repeats = true
+			}
+			seen[x] = 1
+		}
+	}
+	firstHole = bytes.IndexByte(seen, 0)
+	return firstHole < 0, repeats, firstHole
 }
 
 // c17UDPSig: family + sample + violated clause + outcome (one defect seen through many truncations/corruptions is
@@ -372,6 +455,92 @@ func c17EnumerateUDP(sh *evidence.Shard) {
 				c := &c17UDPCase{Kind: "sample", Name: s.Name, Data: s.Data, ExpHost: s.ExpHost, Filter: "nil", RD: true, Addr: net.JoinHostPort(host, port), Note: "port=" + port}
 				run1(p1, c, "")
 			}
+		}
+	}
+
+	// (1b) every layout of the ClientHello over the CRYPTO frames of one Initial.
+	// Added after the independently seeded change C17-7 (frames accepted when their lengths sum to the highest
+	// end offset: a hole hidden by a repeated range, destination rewritten from the zero-filled ClientHello).
+	// Oracle = the property's own clauses through c17RunUDP: a datagram that does not hold every byte of the
+	// ClientHello is truncated input -> destination untouched; one that holds every byte exactly once -> the
+	// server name in it; every byte but some twice -> either.
+	pf := sh.Part("udp-crypto-frame-layouts", "enum")
+	{
+		const sni = "quic.example.org"
+		ch, sniStart, sniEnd := c17ClientHello(sni)
+		grid, maxFrames := 16, 3
+		type vcfg struct {
+			name string
+			ver  uint32
+			cuts []int
+			max  int
+		}
+		cfgs := []vcfg{
+			{"crypto-frames-v1", c17V1, c17FrameCuts(len(ch), grid, sniStart, sniEnd), maxFrames},
+			{"crypto-frames-v2", c17V2, c17FrameCuts(len(ch), grid, sniStart, sniEnd), maxFrames},
+		}
+		if th {
+			// four frames over the same cut points; three frames over the finer grid + the handshake header end
+			cfgs = append(cfgs,
+				vcfg{"crypto-frames-v1", c17V1, c17FrameCuts(len(ch), grid, sniStart, sniEnd), 4},
+				vcfg{"crypto-frames-v2-grid8", c17V2, c17FrameCuts(len(ch), 8, 4, sniStart, sniEnd), 3})
+			cfgs[0].max = 0 // contained in the four-frame run
+		}
+		var alpha []string
+		for _, cf := range cfgs {
+			if cf.max > 0 {
+				alpha = append(alpha, fmt.Sprintf("%s: cut points %v, 1..%d frames", cf.name, cf.cuts, cf.max))
+			}
+		}
+		pf.Alphabet = map[string]any{"client_hello": fmt.Sprintf("%d bytes, server_name %q at [%d,%d)", len(ch), sni, sniStart, sniEnd),
+			"crypto_frame_layout": "every sequence (any order; repeated, overlapping, missing and short ranges included) of CRYPTO frames [a,b), a<b in the cut points, each carrying the true bytes of its range, followed by PADDING, in one Initial",
+			"cut_points":          alpha, "config": "nil filter, RewriteDomain, IPv4 destination"}
+		dcid := []byte{0x83, 0x94, 0xc8, 0xf0, 0x3e, 0x51, 0x57, 0x08}
+		stop := false
+		for _, cf := range cfgs {
+			if stop {
+				break
+			}
+			c17FrameLayouts(cf.cuts, cf.max, func(fr [][2]int) bool {
+				if !mine() {
+					return true
+				}
+				if expired(pf, "crypto frame layouts of "+cf.name) {
+					stop = true
+					return false
+				}
+				var pl []byte
+				note := ""
+				for _, r := range fr {
+					pl = append(pl, c17CryptoFrame(r[0], ch[r[0]:r[1]])...)
+					note += fmt.Sprintf("[%d,%d)", r[0], r[1])
+				}
+				for len(pl) < 160 {
+					pl = append(pl, 0x00)
+				}
+				pkt, _ := c17BuildInitial(cf.ver, dcid, []byte{0x01, 0x02}, nil, 2, 0, pl)
+				complete, repeats, hole := c17FrameCoverage(len(ch), fr)
+				c := &c17UDPCase{Kind: "frames", Name: cf.name, Data: pkt, Filter: primary.Filter, RD: primary.RD, Addr: net.JoinHostPort(primary.Host, "443")}
+				shape := ""
+				switch {
+				case !complete:
+					shape = "incomplete"
+					c.Note = fmt.Sprintf("frames=%s: byte %d of the %d-byte ClientHello is not in the datagram", note, hole, len(ch))
+				case repeats:
+					shape = "complete+repeats"
+					c.ExpHost, c.Either = sni, true
+					c.Note = "frames=" + note + ": complete, some bytes carried twice"
+				default:
+					shape = "tiling"
+					c.ExpHost = sni
+					c.Note = "frames=" + note + ": complete, every byte once"
+				}
+				if !complete && hole >= sniEnd {
+					shape += ",name-present"
+				}
+				run1(pf, c, fmt.Sprintf("%d frames,%s", len(fr), shape))
+				return true
+			})
 		}
 	}
 
